@@ -1,4 +1,5 @@
 """Special-purpose generator profiles (besides the `life` lifecycles of gen.py):
+topup   guarantee holder between plain participants, every base-lottery outcome, then distribution
 fy      scripted draws: exhaustive residue vectors for small n, k; arbitrary 32-bit raws for larger n
 chunks  every composition of an operation's iterations into per-call chunks vs the single call
 perm    every endpoint x caller class at phase checkpoints
@@ -757,6 +758,85 @@ def run_reserve(pair, rng, variant, opts):
 
 
 # ------------------------------------------------------------------------------------------
+# topup
+# ------------------------------------------------------------------------------------------
+
+def run_topup(pair, rng, variant, opts):
+    """guaranteed-ticket variants: one small configuration (a guarantee holder between two plain
+    participants), then EVERY outcome of the base lottery (scripted residue vectors) followed by the
+    distribution step, each from the same snapshot: the holder's own tickets may already be winning
+    at the first / middle / last position of the range, fully, or not at all"""
+    tr = Trace(pair, f"topup-{variant}")
+    minc = rng.range(1, 2)
+    holders = rng.range(1, 2)
+    order = rng.shuffle([10, 11, 12])
+    hs = order[:holders]
+    entries, sizes, reserved = {}, {}, 0
+    for u in (10, 11, 12):
+        if u in hs:
+            if variant in V1ALLOC:
+                st = minc + rng.range(0, 1)
+                en = rng.range(0, 2)
+                mig = 1 if rng.chance(2, 3) else 0
+                entries[u] = [u, st, en, mig]
+                sizes[u] = st + en
+                reserved += 1 + mig
+            else:
+                n = rng.range(2, 4)
+                flat, m = [], rng.range(1, 2)
+                for _ in range(m):
+                    g = rng.range(1, 2)
+                    flat += [g, rng.range(g, n)]
+                    reserved += g
+                entries[u] = [u, n, m] + flat
+                sizes[u] = n
+        else:
+            n = rng.range(1, 2)
+            entries[u] = [u, 0, n, 0] if variant in V1ALLOC else ([u, n, 0] if variant == "guarV2" else [u, n])
+            sizes[u] = n
+    base = rng.range(0, 2)
+    su = Setup(tr, variant, nrw=reserved + base, minc=minc, avail=1)
+    if not su.deploy([10, 11, 12]):
+        return tr
+    args = [3]
+    for u in (10, 11, 12):
+        args += entries[u]
+    if tr.call(OWNER, alloc_ep(variant), args)["st"] != "ok":
+        return tr
+    tr.bound = sum(sizes.values()) + 6
+    if variant in NFT:
+        tr.call(OWNER, "sftSetup")
+    su.deposit()
+    tr.round = su.conf
+    total = 0
+    for u in (10, 11, 12):
+        n = sizes[u] if (u not in hs or rng.chance(3, 4)) else rng.range(0, sizes[u])
+        if n > 0 and tr.call(u, "confirm", [n], **su.pay(su.price * n))["st"] == "ok":
+            total += n
+    tr.round = su.sel
+    tr.call(STRANGER, "filter")
+    d = tr.dump()
+    g, _ = canon.parse_D(d)
+    kk = min(int(g["nrw"]), total)
+    tr.send("snap t")
+    vectors = list(residue_vectors(total, kk)) if kk > 0 else [[]]
+    if len(vectors) > opts.get("max_vectors", 40):
+        vectors = rng.shuffle(vectors)[:opts.get("max_vectors", 40)]
+    ep = su.extra_ep()
+    for cs in vectors:
+        tr.send("restore t")
+        tr.dump()
+        res = tr.call(STRANGER, "select", seeds=[rng.seed32()], script=list(cs), budget=None)
+        if res["st"] != "ok":
+            break
+        tr.dump()
+        budgets = [] if rng.chance(1, 2) else [rng.below(3) for _ in range(3)]
+        drive_chunked(tr, rng, ep, [rng.seed32(), rng.seed32()], budgets, [OWNER, STRANGER], allow_noise=False)
+        tr.dump()
+    return tr
+
+
+# ------------------------------------------------------------------------------------------
 # vest
 # ------------------------------------------------------------------------------------------
 
@@ -857,5 +937,5 @@ def run_life(pair, rng, variant, opts):
     return tr
 
 
-RUNNERS = {"vest": run_vest, "reserve": run_reserve, "deploy": run_deploy, "life": run_life, "fy": run_fy, "chunks": run_chunks, "perm": run_perm, "alloc": run_alloc,
+RUNNERS = {"topup": run_topup, "vest": run_vest, "reserve": run_reserve, "deploy": run_deploy, "life": run_life, "fy": run_fy, "chunks": run_chunks, "perm": run_perm, "alloc": run_alloc,
            "timeline": run_timeline}
